@@ -110,5 +110,5 @@ def build(chk):
     ec.add(Case('O9.solveNormalizedCubic_general.d', 'w_norm_cubic_d', [Val('r'), Val('s'), Val('t'), Out('x', 3)], gen_claim, T='d', setup=cubic_setup, nvalid=0, allow_divzero=True, budget=900, timeout_ms=60000, tier='thorough', core=False,
                 pre=lambda I: [AND(R(I[k]).n >= -4, R(I[k]).n <= 4) for k in 'rst'],
                 desc='solveNormalizedCubic(r,s,t): the returned values are roots and every real root is among them (all three discriminant branches; distinctness is not claimed: nearly coincident roots are legitimately returned twice)', bounds='all real r,s,t in [-4,4]; same complex-libm model'))
-    chk.outside += ['32-bit-wide div/mod identities (bounded to 2^8 quick / 2^12 thorough)', 'root accuracy commensurate with conditioning', 'solveNormalizedCubic (cbrt/acos/complex pow)',
+    chk.outside += ['32-bit-wide div/mod identities (bounded to 2^8 quick / 2^12 thorough)', 'root accuracy commensurate with conditioning', 'solveNormalizedCubic outside the double-root family (thorough-tier, mostly undecided)',
                     'hsv2rgb(rgb2hsv(c)) == c on the unit cube and integer-element colour scaling: not yet attempted', 'lerpfactor never overflows on IEEE floats (no verdict in 300 s)']
